@@ -2247,6 +2247,7 @@ static inline int
 bn_mult_digit(bn_p bn, bn_digit_t n) {
 	bn_t tmp;
 	size_t digits;
+	bn_digit_t crr = 0;
 
 	/* Speed optimizations. */
 	if (0 != bn_is_zero(bn))
@@ -2259,12 +2260,18 @@ bn_mult_digit(bn_p bn, bn_digit_t n) {
 	case 1:
 		break;
 	case 2: // XXX shift check
-		BN_RET_ON_ERR(bn_add(bn, bn, NULL));
+		BN_RET_ON_ERR(bn_add(bn, bn, &crr));
+		if (0 != crr)
+			return (EOVERFLOW);
 		break;
 	case 3:
 		BN_RET_ON_ERR(bn_assign_init(&tmp, bn));
-		BN_RET_ON_ERR(bn_add(&tmp, &tmp, NULL));
-		BN_RET_ON_ERR(bn_add(bn, &tmp, NULL));
+		BN_RET_ON_ERR(bn_add(&tmp, &tmp, &crr));
+		if (0 != crr)
+			return (EOVERFLOW);
+		BN_RET_ON_ERR(bn_add(bn, &tmp, &crr));
+		if (0 != crr)
+			return (EOVERFLOW);
 		break;
 	default:
 		digits = bn->digits;
